@@ -129,7 +129,7 @@ func (m c11Meta) checkUnion(all http.Header, what string) {
 
 // HarnessC11Unary: unary calls, success and failure, three protocols.
 //
-//verif:harness property=C11 stubs=json,wire shard=proto:3
+//verif:harness property=C11 stubs=json,wire shard=proto:3 cross=z3-new
 func HarnessC11Unary() {
 	proto := nondetChoice("proto", 3)
 	fail := nondetBool("fail")
